@@ -2141,6 +2141,26 @@ def _sb_lemma_image_count(eng, st, node):
     n = to_z3(eng.ev(node.args[4], st), INT)
     t, u, x, y = z3.Ints('t!ic u!ic x!ic y!ic')
     w = st.heap[rv.oid].meta.get('where_idx') if isinstance(rv, Ref) and st.heap[rv.oid].meta.get('where_cond') is not None else None
+    if len(node.args) > 5:
+        # explicit witness w(x, y) given by the contract as a lambda of two variables (any integer expression)
+        lamw = node.args[5]
+        if not isinstance(lamw, ast.Lambda) or len(lamw.args.args) != 2:
+            raise ContractError('lemma_image_count: the witness must be a lambda of two variables')
+        wa, wb = [a_.arg for a_ in lamw.args.args]
+
+        def w(xx, yy, lamw=lamw, wa=wa, wb=wb):
+            saved = {nm_: st.ghost.get(nm_) for nm_ in (wa, wb)}
+            shadow = {nm_: st.env.pop(nm_) for nm_ in (wa, wb) if nm_ in st.env}
+            st.ghost[wa], st.ghost[wb] = xx, yy
+            try:
+                return to_z3(eng.ev(lamw.body, st), INT)
+            finally:
+                for nm_, v_ in saved.items():
+                    if v_ is None:
+                        st.ghost.pop(nm_, None)
+                    else:
+                        st.ghost[nm_] = v_
+                st.env.update(shadow)
     extra = []
     if w is not None:
         # the rows come from a 2-D np.where: "some t enumerates the cell" is stated through its index function w, together with
@@ -2165,6 +2185,31 @@ def _sb_lemma_tsum_plus_transpose(eng, st, node):
     x, y = z3.Ints('x!tt y!tt')
     hyp = z3.ForAll([x, y], z3.Implies(z3.And(x >= 0, x < n, y >= 0, y < n), z3.Select(z3.Select(S, x), y) == z3.Select(z3.Select(A, x), y) + z3.Select(z3.Select(A, y), x)))
     return z3.Implies(hyp, tsum(S, n) == 2 * tsum(A, n))
+
+
+def _sb_rounds_to(eng, st, node):
+    """rounds_to(r, x): r is x rounded to the nearest integer, exact halves away from zero (the contract of teachers_round)."""
+    r = to_z3(eng.ev(node.args[0], st), REAL)
+    x = to_z3(eng.ev(node.args[1], st), REAL)
+    half = z3.RealVal('1/2')
+    return z3.And(z3.IsInt(r), r >= x - half, r <= x + half, z3.Implies(r - x == half, x > 0), z3.Implies(x - r == half, x < 0))
+
+
+def _sb_where_index(eng, st, node):
+    """where_index(i, x, y): the position of the cell (x, y) in the result (i, j) of a 2-D np.where (meaningful where the condition holds)."""
+    v = eng.ev(node.args[0], st)
+    w = st.heap[v.oid].meta.get('where_idx') if isinstance(v, Ref) else None
+    if w is None:
+        raise ContractError('where_index: not the first result of a 2-D np.where')
+    return w(to_z3(eng.ev(node.args[1], st), INT), to_z3(eng.ev(node.args[2], st), INT))
+
+
+def _sb_argsort_inverse(eng, st, node):
+    """argsort_inverse(e): the rank of position e under the most recent np.argsort (ascending)."""
+    sinv = st.ghost.get('argsort_inverse_last')
+    if sinv is None:
+        raise ContractError('no np.argsort call seen')
+    return z3.Select(sinv, to_z3(eng.ev(node.args[0], st), INT))
 
 
 def _sb_lemma_tsum_add(eng, st, node):
@@ -2360,7 +2405,7 @@ SPEC_BUILTINS = {
     'dot2': _sb_dot2, 'isperm': _sb_isperm, 'same_object': _sb_same_object, 'unchanged': _sb_unchanged,
     'snapshot': _sb_snapshot, 'argref': _sb_argref, 'lam1': _sb_lam1, 'KCf': _sb_KCf, 'KNf': _sb_KNf, 'result_is_empty': _sb_result_is_empty, 'hopsint': _sb_hopsint, 'lam2': _sb_lam2, 'unique_witness': _sb_unique_witness, 'member': _sb_member, 'dset': _sb_dset(dset), 'rset': _sb_dset(rset), 'wset': _sb_dset(wset), 'cntb': _sb_cntb,
     'modsum': _mk_mod(modsum, 3), 'modsumT': _mk_mod(modsumT, 3), 'degsum': _mk_mod(degsum, 2), 'degsumT': _mk_mod(degsumT, 2), 'agg': _mk_mod(agg, 3),
-    'Qmod': _sb_Qmod, 'walk': _sb_walk, 'isint': (lambda eng, st, node: z3.IsInt(to_z3(eng.ev(node.args[0], st), REAL))), 'sdist': _sb_sdist, 'lemma_walks': _sb_lemma_walks, 'Qrawg': _sb_Qrawg, 'umul': _sb_umul, 'lemma_umul_linear': _sb_lemma_umul_linear, 'QrawB': _mk_mod(QrawB, 1), 'tsum': _mk_specfn(tsum, 1), 'csum': _mk_specfn(csum, 2), 'lemma_modularity': _sb_lemma_modularity, 'lemma_knm_sums': _sb_lemma_knm_sums, 'lemma_relabel': _sb_lemma_relabel, 'lemma_relabel_g': _sb_lemma_relabel_g, 'lemma_agg_compose': _sb_lemma_agg_compose, 'lemma_flat_count': _sb_lemma_flat_count, 'exists': _sb_exists, 'lemma_tsum_add': _sb_lemma_tsum_add, 'lemma_tsum_int': _sb_lemma_tsum_int, 'lemma_full_offdiag': _sb_lemma_full_offdiag, 'flat_store_rows': (lambda eng, st, node: st.ghost['_flat_store'][0]), 'flat_store_cols': (lambda eng, st, node: st.ghost['_flat_store'][1]), 'flat_store_len': (lambda eng, st, node: st.ghost['_flat_store'][2]), 'lemma_tsum_plus_transpose': _sb_lemma_tsum_plus_transpose, 'lemma_image_count': _sb_lemma_image_count,
+    'Qmod': _sb_Qmod, 'walk': _sb_walk, 'isint': (lambda eng, st, node: z3.IsInt(to_z3(eng.ev(node.args[0], st), REAL))), 'sdist': _sb_sdist, 'lemma_walks': _sb_lemma_walks, 'Qrawg': _sb_Qrawg, 'umul': _sb_umul, 'lemma_umul_linear': _sb_lemma_umul_linear, 'QrawB': _mk_mod(QrawB, 1), 'tsum': _mk_specfn(tsum, 1), 'csum': _mk_specfn(csum, 2), 'lemma_modularity': _sb_lemma_modularity, 'lemma_knm_sums': _sb_lemma_knm_sums, 'lemma_relabel': _sb_lemma_relabel, 'lemma_relabel_g': _sb_lemma_relabel_g, 'lemma_agg_compose': _sb_lemma_agg_compose, 'lemma_flat_count': _sb_lemma_flat_count, 'rounds_to': _sb_rounds_to, 'where_index': _sb_where_index, 'argsort_inverse': _sb_argsort_inverse, 'exists': _sb_exists, 'lemma_tsum_add': _sb_lemma_tsum_add, 'lemma_tsum_int': _sb_lemma_tsum_int, 'lemma_full_offdiag': _sb_lemma_full_offdiag, 'flat_store_rows': (lambda eng, st, node: st.ghost['_flat_store'][0]), 'flat_store_cols': (lambda eng, st, node: st.ghost['_flat_store'][1]), 'flat_store_len': (lambda eng, st, node: st.ghost['_flat_store'][2]), 'lemma_tsum_plus_transpose': _sb_lemma_tsum_plus_transpose, 'lemma_image_count': _sb_lemma_image_count,
     'frow': (lambda eng, st, node: frow(to_z3(eng.ev(node.args[0], st), INT), to_z3(eng.ev(node.args[1], st), INT))), 'fcol': (lambda eng, st, node: fcol(to_z3(eng.ev(node.args[0], st), INT), to_z3(eng.ev(node.args[1], st), INT))), 'lemma_agg_symm': _sb_lemma_agg_symm, 'lemma_agg_identity': _sb_lemma_agg_identity, 'lemma_q_from_aggregate': _sb_lemma_q_from_aggregate,
     'lemma_masked_degree': _sb_lemma_masked_degree, 'lemma_degree_monotone': _sb_lemma_degree_monotone, 'result': _sb_result, 'raised': _sb_raised, 'shape_is': _sb_shape_is,
 }
